@@ -493,11 +493,11 @@ theorem protocol_deadlock_without_workers_counterexample :
   cases op <;> simp [step, init, allReturned, honest] at hh ⊢
 
 /-- Termination: a run in which every operation is a transition that happens
-    has at most `6·|matchers| + lim + 5` steps — each matcher result is handed
+    has at most `6·|matchers| + lim + 6` steps — each matcher result is handed
     off, checked, computed, sent and collected once, each goroutine returns
     once.  (Matchers are assumed to return: `finish` is a transition.) -/
 theorem protocol_terminates (lim : Nat) (ms : List Nat) (ops : List Op)
-    (h : allOk (init lim ms) ops = true) : ops.length ≤ 6 * ms.length + lim + 5 := by
+    (h : allOk (init lim ms) ops = true) : ops.length ≤ 6 * ms.length + lim + 6 := by
   have := run_length_bound (init lim ms) ops h
   rw [measure_init] at this
   omega
@@ -519,7 +519,7 @@ theorem protocol_failure_is_error (lim : Nat) (ms : List Nat) (ops₁ ops₂ : L
     (Sm.run step (init lim ms) (ops₁ ++ .finish w false :: ops₂)).senderErr = true := by
   have h := reachable_inv lim ms (ops₁ ++ .finish w false :: ops₂)
   simp only [final, Bool.and_eq_true, beq_iff_eq] at hf
-  apply h.doneErr hf.1.1
+  apply h.doneErr (Or.inr hf.1.1)
   rw [Sm.run_append, Sm.run_cons]
   exact failed_mono_run _ _ (finish_false_fails _ w hfin)
 
@@ -529,9 +529,7 @@ theorem protocol_cancel_is_error (s : State) (hc : s.parentCancelled = true)
     (hw : (step s .senderWait).2 = .ok) : (step s .senderWait).1.senderErr = true := by
   simp only [step] at hw ⊢
   split
-  · split
-    · simp [hc]
-    · rename_i h1 h2; simp [h1, h2] at hw
+  · simp [hc]
   · rename_i h1; simp [h1] at hw
 
 end Protocol
